@@ -532,6 +532,10 @@ class Walker:
                 if env is None:
                     env = dict(s.env)
                 env[k] = None
+                if k != own and v is not None and isinstance(k[1], str) and k[0] != "call" and k[0] != "frozen":
+                    # the local keeps denoting the object it was bound to: remember that identity under its opaque name
+                    tag = "" if not k[0] else "__" + "_".join("%s%d" % (f[2][:3], f[0]) for f in k[0])
+                    env[("frozen", k[1] + tag)] = v
         if own is not None and own not in s.env:
             if env is None:
                 env = dict(s.env)
